@@ -213,7 +213,7 @@ class SingleItemEncoder(object):
         if LOG:
             debug.scope.push(type(value).__name__)
             LOG('encoder called for type %s '
-                '<%s>' % (type(value).__name__, value.prettyPrint()))
+                '<%s>' % (type(value).__name__, debug.prettyValue(value)))
 
         tagSet = value.tagSet
 
@@ -239,7 +239,7 @@ class SingleItemEncoder(object):
 
         if LOG:
             LOG('encoder %s produced: '
-                '%s' % (type(concreteEncoder).__name__, repr(pyObject)))
+                '%s' % (type(concreteEncoder).__name__, debug.prettyValue(pyObject)))
             debug.scope.pop()
 
         return pyObject
